@@ -8,7 +8,7 @@
    number of clients each with or without L1) by ANY finite sequence of store / fetch / rise / clear /
    evict / stats / clock tick / raw foreign frame operations by any clients in any order.
    `quiet o` = o is a fetch, an L1 eviction or a stats call (operations that only read the servers). *)
-From CppcmsV Require Import Base.Tac Base.CSem C10.Defs C10.Proofs C10.Coherence C10.Codec C10.Effects C10.Refine C10.Placement C10.Triggers C10.L1Triggers C10.Link C10.Wrap C10.Restart C10.NetDefs C10.NetProofs C10.NetDown C10.Order C10.TrigExact C10.NetRpc
+From CppcmsV Require Import Base.Tac Base.CSem C10.Defs C10.Proofs C10.Coherence C10.Codec C10.Effects C10.Refine C10.Placement C10.Triggers C10.L1Triggers C10.Link C10.Wrap C10.Restart C10.NetDefs C10.NetProofs C10.NetDown C10.Order C10.TrigExact C10.NetRpc C10.SchedDefs C10.SchedProofs
   gen.Gen_tcphash gen.Gen_tcpproto.
 Local Open Scope N_scope.
 
@@ -319,37 +319,37 @@ Proof. vm_compute. repeat split. Qed.
 
 (* ---------------------------------------------------------------------------------------------------------
    5. The length check of tcp_cache_service::session::store (MECHANISM: "server validates key/data/trigger lengths against
-      the frame size") is evaluated in uint32.  frame_ok h p: every header field is a 32-bit word and the payload has
-      exactly h_size bytes (what session::on_header_in has read).  store_check h: the check passes.
-      - without wrap-around the check is exact: the three regions partition the payload and the key is non-empty;
-      - the check passes exactly when the integer sum is the payload length, or exceeds it by 2^32 or 2^33;
-      - frames shorter than 2^31 bytes whose fields do not exceed the frame size cannot wrap (and from 2^31 on they can);
-      - REFUTED in general: a frame of ONE payload byte (key_len=1, data_len=2^32-1, triggers_len=1) passes the check and is
-        answered `done` by the model, while its value region ends 2^32 bytes behind the frame - the code reads there
-        (replayed on the implementation: SIGSEGV of the cache server, docs/C10_wrap.case, finding store-length-sum-wraps);
-      - the frames tcp_cache::store builds for contents shorter than 2^32 bytes never wrap. *)
-Theorem store_length_check_exact_without_wrap : forall h p,
-  frame_ok h p -> store_check h = true -> store_sum h < W32 ->
+      the frame size").  Since /repo b527961 the sum key_len+data_len+triggers_len is taken in 64 bits, i.e. it is the integer
+      sum (model: srv_store compares the integers).  store_check h: the check passes.  For EVERY frame whose payload has the
+      h_size bytes that session::on_header_in has read - no hypothesis on sizes:
+      - the check is exact: when it passes, the three regions the code reads afterwards partition the payload and the key is
+        non-empty; and it is complete: a frame whose lengths add up to its payload, with a non-empty key, passes;
+      - a store frame whose sum exceeds its payload is answered `error` and changes nothing, whatever the sum is modulo 2^32;
+      - regression Example: the 41-byte frame (key_len=1, data_len=2^32-1, triggers_len=1, size=1) that passed the uint32 check
+        and crashed the server before the repair (was finding store-length-sum-wraps) is refused on every server state
+        (corpus/C10/wrap_regress.case: answered `error`, server alive);
+      - the frames tcp_cache::store builds for contents shorter than 2^32 bytes are well-formed and pass. *)
+Theorem store_length_check_exact : forall h p,
+  lenN p = h_size h -> store_check h = true ->
   store_sum h = lenN p /\
   p = take (h_u2 h) p ++ take (h_u3 h) (drop (h_u2 h) p) ++ take (h_u4 h) (drop (h_u2 h + h_u3 h) p) /\
   take (h_u2 h) p <> [].
 Proof. exact store_check_exact. Qed.
-Print Assumptions store_length_check_exact_without_wrap.
-Theorem store_length_check_cases : forall h p,
-  frame_ok h p -> store_check h = true ->
-  store_sum h = lenN p \/ store_sum h = lenN p + W32 \/ store_sum h = lenN p + 2 * W32.
-Proof. exact store_check_cases. Qed.
-Print Assumptions store_length_check_cases.
-Theorem store_length_check_exact_for_small_frames : forall h p,
-  frame_ok h p -> store_check h = true -> h_size h < 2147483648 ->
-  h_u2 h <= h_size h -> h_u3 h <= h_size h -> h_u4 h <= h_size h -> store_sum h = lenN p.
-Proof. exact store_check_exact_small. Qed.
-Print Assumptions store_length_check_exact_for_small_frames.
-Theorem store_length_check_wraps_refuted :
-  exists h p, frame_ok h p /\ store_check h = true /\ lenN p < h_u2 h + h_u3 h /\
-              fst (fst (srv_handle 1000 h p c_empty)) = hdr0 op_done.
-Proof. exact store_check_wraps. Qed.
-Print Assumptions store_length_check_wraps_refuted.
+Print Assumptions store_length_check_exact.
+Theorem store_length_check_complete : forall h, store_sum h = h_size h -> h_u2 h <> 0 -> store_check h = true.
+Proof. exact store_check_complete. Qed.
+Print Assumptions store_length_check_complete.
+Theorem store_frame_with_oversized_sum_is_refused : forall now h p c,
+  h_op h = op_store -> lenN p = h_size h -> lenN p < store_sum h -> srv_handle now h p c = (hdr0 op_error, [], c).
+Proof. exact oversized_sum_refused. Qed.
+Print Assumptions store_frame_with_oversized_sum_is_refused.
+Example wrapping_frame_regression :
+  frame_ok wrap_hdr [107] /\ (store_sum wrap_hdr) mod W32 = h_size wrap_hdr /\ lenN [107] < h_u2 wrap_hdr + h_u3 wrap_hdr /\
+  forall now c, srv_handle now wrap_hdr [107] c = (hdr0 op_error, [], c).
+Proof.
+  split; [split; [vm_compute; repeat split; reflexivity|reflexivity]|]. split; [vm_compute; reflexivity|].
+  split; [vm_compute; reflexivity|]. exact wrapping_frame_refused.
+Qed.
 Theorem client_store_frames_never_wrap : forall k v trg dl,
   lenN (k ++ v ++ enc_trigs trg) < W32 ->
   let h := fst (enc_store k v trg dl) in let p := snd (enc_store k v trg dl) in
@@ -427,11 +427,14 @@ Qed.
         the schedule; with positive entries and enough bytes in the stream it completes;
       - transmit over ANY schedules of positive chunk sizes is the atomic RPC of Defs.v (srv_handle): the answer and the
         server's new state do not depend on the schedules - this is what justifies "every RPC is one atomic server step";
+      - the second attempt of transmit sends exactly the original request bytes, whatever the failed first attempt left in the
+        header object and whatever lies behind the request string in memory (since /repo d350cd9: `h=request;` before each
+        attempt; was finding retry-sends-overwritten-header);
       - with failures anywhere (ANY schedules, reconnect refused or not) transmit returns the genuine answer to the first or
-        to a second execution of the genuine request, or `error`, or throws; the server has executed the genuine request
-        zero, one or two times and nothing else.  An `error` answer is a miss for tcp_cache::fetch: never a value;
-      - REFUTED: the retry does not always send the request again - after a failed read that had overwritten the size
-        field it sends more bytes than the request string holds (replayed: finding retry-sends-overwritten-header). *)
+        to a second execution of the genuine request, or throws - nothing else; the server has executed the genuine request
+        zero, one or two times and nothing else;
+      - ONE failure anywhere followed by a working reconnect and an undisturbed second attempt is masked: the caller gets the
+        genuine answer.  (An `error` answer - unknown opcode, refused frame - is a miss for tcp_cache::fetch: never a value.) *)
 Theorem short_transfers_move_exactly_the_bytes_asked_for : forall sched stream need,
   (forall got s2 rest, sock_xfer sched stream need = (true, got, s2, rest) ->
      got = take need stream /\ rest = drop need stream /\ need <= lenN stream) /\
@@ -452,27 +455,32 @@ Theorem transmit_is_the_atomic_rpc_for_every_transfer_schedule : forall ws1 rs1 
   transmit ws1 rs1 up ws2 rs2 h (data ++ pad) now c = (TxReply rh rp, c1).
 Proof. exact transmit_schedule_independent. Qed.
 Print Assumptions transmit_is_the_atomic_rpc_for_every_transfer_schedule.
+Theorem retry_sends_exactly_the_original_request : forall h data pad hb,
+  hdr_ok h -> h_size h = lenN data -> second_request h hb (data ++ pad) = Some (h, data).
+Proof. exact retry_sends_exactly_the_request. Qed.
+Print Assumptions retry_sends_exactly_the_original_request.
 Theorem transmit_under_failures_never_invents_an_answer :
   forall ws1 rs1 up ws2 rs2 h data pad now c rh rp c1 rh2 rp2 c2,
-  hdr_ok h -> h_size h = lenN data -> request_op (h_op h) ->
+  hdr_ok h -> h_size h = lenN data ->
   srv_handle now h data c = (rh, rp, c1) -> hdr_ok rh ->
   srv_handle now h data c1 = (rh2, rp2, c2) -> hdr_ok rh2 ->
   match transmit ws1 rs1 up ws2 rs2 h (data ++ pad) now c with
-  | (TxReply a b, c') =>
-      (a = rh /\ b = rp /\ c' = c1) \/ (a = rh2 /\ b = rp2 /\ c' = c2) \/ (a = hdr0 op_error /\ b = [] /\ c' = c1)
+  | (TxReply a b, c') => (a = rh /\ b = rp /\ c' = c1) \/ (a = rh2 /\ b = rp2 /\ c' = c2)
   | (TxExn, c') => c' = c \/ c' = c1 \/ c' = c2
   end.
 Proof. exact transmit_any_schedule. Qed.
 Print Assumptions transmit_under_failures_never_invents_an_answer.
+Theorem one_failure_and_a_working_reconnect_are_masked : forall ws1 rs1 ws2 rs2 h data pad now c rh rp c1 rh2 rp2 c2,
+  positive_sched ws2 -> positive_sched rs2 -> hdr_ok h -> h_size h = lenN data ->
+  srv_handle now h data c = (rh, rp, c1) -> hdr_ok rh ->
+  srv_handle now h data c1 = (rh2, rp2, c2) -> hdr_ok rh2 ->
+  transmit ws1 rs1 true ws2 rs2 h (data ++ pad) now c = (TxReply rh rp, c1) \/
+  transmit ws1 rs1 true ws2 rs2 h (data ++ pad) now c = (TxReply rh2 rp2, c2).
+Proof. exact one_failure_is_masked. Qed.
+Print Assumptions one_failure_and_a_working_reconnect_are_masked.
 Theorem error_answer_is_never_a_value : forall tif want, dec_fetch tif want (hdr0 op_error) [] = FNotFound.
 Proof. exact error_answer_is_a_miss. Qed.
 Print Assumptions error_answer_is_never_a_value.
-Theorem retry_sends_the_request_again_refuted :
-  exists h data rh j g,
-    hdr_ok h /\ h_size h = lenN data /\ request_op (h_op h) /\ hdr_ok rh /\ reply_op (h_op rh) /\ 1 <= j <= 40 /\
-    hdr_parse (overlay (take j (hdr_bytes rh)) (hdr_bytes h)) = Some g /\ lenN data < h_size g.
-Proof. exact garbled_retry_overreads. Qed.
-Print Assumptions retry_sends_the_request_again_refuted.
 (* the request opcodes are the source's request opcodes, the answer opcodes its answer opcodes (Gen_tcpproto) *)
 Theorem request_and_answer_opcodes_are_source :
   (forall o, request_op o <-> In (Z.of_N o) [g_op_fetch; g_op_rise; g_op_clear; g_op_store; g_op_stats]) /\
@@ -492,8 +500,10 @@ Example transport_nonvacuous :
   transmit (repeat 1 41) (repeat 1 50) false [] [] (fst rq) (snd rq ++ [1; 2; 3; 4; 5; 6; 7; 8]) 1000 c = (TxReply (fst (fst genuine)) (snd (fst genuine)), c) /\
   transmit [] [] false [] [] (fst rq) (snd rq ++ [1; 2; 3; 4; 5; 6; 7; 8]) 1000 c = (TxReply (fst (fst genuine)) (snd (fst genuine)), c) /\
   h_op (fst (fst genuine)) = op_data /\ snd (fst genuine) = [118; 0; 119; 107; 0; 116; 0] /\
-  (* the connection fails 8 bytes into the answer: the retry is answered `error` *)
-  transmit [] [8; 0] true [] [] (fst rq) (snd rq ++ [1; 2; 3; 4; 5; 6; 7; 8]) 1000 c = (TxReply (hdr0 op_error) [], c) /\
+  (* regression (was finding retry-sends-overwritten-header): the connection fails 8 bytes into the answer - the retry sends the
+     request again and gets the genuine answer; the request it sends is the original one *)
+  transmit [] [8; 0] true [] [] (fst rq) (snd rq ++ [1; 2; 3; 4; 5; 6; 7; 8]) 1000 c = (TxReply (fst (fst genuine)) (snd (fst genuine)), c) /\
+  second_request (fst rq) (overlay (take 8 (hdr_bytes (fst (fst genuine)))) (hdr_bytes (fst rq))) (snd rq ++ [1; 2; 3; 4; 5; 6; 7; 8]) = Some rq /\
   (* fails before the request is out, reconnect refused: exception *)
   transmit [3; 0] [] false [] [] (fst rq) (snd rq ++ [1; 2; 3; 4; 5; 6; 7; 8]) 1000 c = (TxExn, c) /\
   (* fails before the request is out, reconnect works: genuine answer *)
@@ -529,14 +539,6 @@ Theorem failed_rise_reached_the_servers_before_the_first_down : forall x c t x1,
              nw x1 = broadcast (first_down (nw_up x) (nsrv w1)) w1 (enc_rise t).
 Proof. exact nrise_exn. Qed.
 Print Assumptions failed_rise_reached_the_servers_before_the_first_down.
-(* a fetch whose connection failed in the middle of the answer (NGarbled: the retry was answered `error`, section 7) reports a
-   miss, purges the key from the L1 of the node, changes no server - and is a step of nreachable, so every later fetch is
-   current again (fetch_current_with_servers_down) *)
-Theorem fetch_after_mid_answer_failure_is_a_miss : forall x c k a x1,
-  nstep x (NGarbled c k) = (a, x1) ->
-  (a = NObs (ObsFetch None) \/ a = NObs ObsBad) /\ w_srv (nw x1) = w_srv (nw x) /\ nw_up x1 = nw_up x.
-Proof. exact ngarbled_miss. Qed.
-Print Assumptions fetch_after_mid_answer_failure_is_a_miss.
 Example servers_down_nonvacuous :
   let h := [NOp (OStore 0 [107] [49] [[116]] 2000); NOp (OStore 0 [108] [50] [[116]] 2000); NOp (OFetch 1 [107] true); NDown 1;
             NOp (OFetch 1 [107] true); NOp (OStore 0 [107] [51] [] 2000); NOp (ORise 0 [116]); NUp 1;
@@ -673,3 +675,47 @@ Proof.
   intros k v trg dl L. split; [apply (client_store_frame_exact k v trg dl L)|]. vm_compute. reflexivity.
 Qed.
 Print Assumptions client_request_frames_are_well_formed.
+
+(* ---------------------------------------------------------------------------------------------------------
+   13. The quantification over transfer schedules, lifted into the world histories (coq/C10/SchedDefs.v: gstep R / grun R = step /
+       run with every client RPC made by R; sched_rpc pick = the RPC made by messenger::transmit over the schedules an adversary
+       `pick` chooses for each call - chunk sizes of the request's writev calls, of the answer's readv calls, memory behind the
+       request string - as a function of the whole state, the target server and the frame).  For EVERY such adversary with positive
+       chunk sizes, every start world and EVERY history: the history executed over those schedules is the atomic history -
+       same observations, same final world - provided every frame the atomic execution exchanges fits the 32-bit header fields
+       (call_fits on calls_run: requests well-formed, answer headers representable, i.e. no record of 4 GiB and no generation of
+       2^64; an executable side condition, not discharged by an invariant: PARTIAL in that respect).  Hence every theorem above
+       about run / step / reachable holds for histories executed over arbitrary short transfers.  The general principle behind it:
+       a history run with any RPC function that agrees with the atomic rpc on the calls made is the atomic history. *)
+Theorem history_over_any_transfer_schedules_is_the_atomic_history : forall pick w h,
+  positive_pick pick -> forallb call_fits (calls_run w h) = true -> grun (sched_rpc pick) w h = run w h.
+Proof. exact scheduled_history_is_atomic. Qed.
+Print Assumptions history_over_any_transfer_schedules_is_the_atomic_history.
+Theorem history_with_an_agreeing_rpc_is_the_atomic_history : forall R h w,
+  Forall (agrees R) (calls_run w h) -> grun R w h = run w h.
+Proof. exact grun_eq. Qed.
+Print Assumptions history_with_an_agreeing_rpc_is_the_atomic_history.
+(* non-vacuity: two servers, two nodes (one with L1); an adversary that cuts requests into 1,2,3,.. byte writes when the key starts
+   with k and into single bytes otherwise, answers into 7-byte reads, with junk behind the request string; 9 operations, 11 RPCs *)
+Example scheduled_history_nonvacuous :
+  let pick : pick_t := fun w i rq => (match snd rq with 107 :: _ => [1; 2; 3; 4; 5] | _ => repeat 1 100 end, repeat 7 3, [255; 254; 253]) in
+  let h := [OStore 1 [107] [49; 0; 50] [[116]] 2000; OFetch 0 [107] true; OStore 1 [108] [51] [] 2000; OFetch 0 [107] true;
+            OStore 1 [107] [52] [[117]] 2000; OFetch 0 [107] true; ORise 1 [117]; OStats 0; OFetch 0 [107] false] in
+  let w := init_world 2 [true; false] in
+  positive_pick pick /\ length (calls_run w h) = 11%nat /\ forallb call_fits (calls_run w h) = true /\
+  grun (sched_rpc pick) w h = run w h /\
+  fst (run w h) = [ObsNone; ObsFetch (Some ([49; 0; 50], [[107]; [116]], 2000%Z)); ObsNone;
+                   ObsFetch (Some ([49; 0; 50], [[107]; [116]], 2000%Z)); ObsNone;
+                   ObsFetch (Some ([52], [[107]; [116]; [117]], 2000%Z)); ObsNone; ObsStats 1 1; ObsFetch None].
+Proof.
+  cbv zeta. split.
+  - intros w i rq. cbn [fst snd]. split.
+    + destruct (snd rq) as [|b r]; [apply Forall_forall; intros x Hx; apply repeat_spec in Hx; subst; reflexivity|].
+      destruct (N.eq_dec b 107) as [->|NE].
+      * repeat constructor.
+      * assert (match b with 107 => [1; 2; 3; 4; 5] | _ => repeat 1 100 end = repeat 1 100) as ->.
+        { destruct b as [|p]; [reflexivity|]. do 7 (destruct p as [p|p|]; try reflexivity). congruence. }
+        apply Forall_forall. intros x Hx. apply repeat_spec in Hx. subst. reflexivity.
+    + repeat constructor.
+  - vm_compute. repeat split.
+Qed.
